@@ -18,13 +18,13 @@ pub struct CaseCtx {
 	pub scratch: PathBuf,
 	pub replay: bool,
 	progress_file: Option<PathBuf>,
-	label: RefCell<String>,
+	label: std::sync::Mutex<String>,
 }
 
 impl CaseCtx {
 	/// name what the case is doing right now (used to attribute an abort / hang)
 	pub fn progress(&self, label: &str) {
-		*self.label.borrow_mut() = label.to_string();
+		*self.label.lock().unwrap() = label.to_string();
 		if let Some(p) = &self.progress_file {
 			let _ = std::fs::write(p, format!("{}\t{}", self.case, label));
 		}
@@ -68,7 +68,7 @@ fn run_one(def: &MonitorDef, cx: &CaseCtx, rep: &mut Report) {
 			rep.inconclusive(&format!("harness panic in case {}: {}", cx.case, p.describe()));
 		} else {
 			let sig = p.signature("uncaught");
-			rep.violation(&sig, "panic escaped from the code under test", json!({"panic": p.describe(), "label": cx.label.borrow().clone()}));
+			rep.violation(&sig, "panic escaped from the code under test", json!({"panic": p.describe(), "label": cx.label.lock().unwrap().clone()}));
 		}
 	}
 }
@@ -96,7 +96,7 @@ pub fn run_shard(def: &MonitorDef, a: &Args) -> i32 {
 				scratch: scratch.clone(),
 				replay: false,
 				progress_file: Some(progress_file.clone()),
-				label: RefCell::new(String::new()),
+				label: std::sync::Mutex::new(String::new()),
 			};
 			cx.progress("");
 			let t0 = Instant::now();
@@ -104,7 +104,7 @@ pub fn run_shard(def: &MonitorDef, a: &Args) -> i32 {
 			let ms = t0.elapsed().as_millis() as u64;
 			rep.max("slowest_case_ms", ms);
 			if ms > 8000 {
-				rep.label("slow_cases", &format!("case {case}: {ms} ms ({})", cx.label.borrow()));
+				rep.label("slow_cases", &format!("case {case}: {ms} ms ({})", cx.label.lock().unwrap()));
 			}
 			done_through = case as i64;
 			if last_flush.elapsed() > Duration::from_millis(1500) {
@@ -182,7 +182,7 @@ pub fn run_monitor(def: &MonitorDef, a: &Args) -> i32 {
 			scratch: scratch.clone(),
 			replay: true,
 			progress_file: None,
-			label: RefCell::new(String::new()),
+			label: std::sync::Mutex::new(String::new()),
 		};
 		let mut rep = Report::new();
 		run_one(def, &cx, &mut rep);
